@@ -3,7 +3,7 @@
 # quick tier of its property's check, and, when that stays quiet, of the other checks its meta.json names;
 # each in a scratch worktree of /repo HEAD (outside /repo and /verif). Writes seeded/REGRESSION.txt.
 cd /verif || exit 2
-OUT=seeded/REGRESSION.txt
+OUT=${OUT:-seeded/REGRESSION.txt}
 TMP=$(mktemp)
 for d in seeded/${1:-C}*/; do
   x=$(basename $d)
